@@ -310,7 +310,7 @@ class Corr:
         self.err = None
 
 
-def correspondence(ctx, domain, drv_args, gen_args=(), hx_env=None, ops_text=None, timeout=3000):
+def correspondence(ctx, domain, drv_args, gen_args=(), hx_env=None, ops_text=None, timeout=3000, drv_domain=None):
     """Runs generator, implementation and model on the same op lines."""
     c = Corr()
     hx = os.path.join(BIN, "hx")
@@ -332,7 +332,7 @@ def correspondence(ctx, domain, drv_args, gen_args=(), hx_env=None, ops_text=Non
         c.err = "hx run timed out"
         return c
     try:
-        rc2, model, err2 = run_lines([drv_path(), domain, *drv_args], ops_text, timeout=timeout)
+        rc2, model, err2 = run_lines([drv_path(), drv_domain or domain, *drv_args], ops_text, timeout=timeout)
     except subprocess.TimeoutExpired:
         c.err = "drv timed out"
         return c
@@ -531,3 +531,23 @@ def distinct_cases(c):
         if len(cs) >= 3:
             seen.add("\n".join(c.ops[i] for i in cs[1:]))
     return len(seen)
+
+
+def replay_generic(ctx, path):
+    """./check Cxx --replay <file>: re-run the recorded op lines on the current /repo build and on the model."""
+    rep = json.load(open(path))
+    if "ops" not in rep:
+        print(json.dumps(rep, indent=1)[:4000])
+        print("replay file names no op sequence (obligation/undetermined/drift report)")
+        return 0
+    domain = rep.get("correspondence", ctx.pid)
+    build_hx(ctx)
+    build_drv(ctx)
+    args = rep.get("drv_args", [])
+    c = correspondence(ctx, domain, args, ops_text="\n".join(rep["ops"]) + "\n", timeout=600,
+                       drv_domain=rep.get("drv_domain"))
+    for i, op in enumerate(c.ops):
+        a = c.impl[i] if i < len(c.impl) else "<missing>"
+        b = c.model[i] if i < len(c.model) else "<missing>"
+        print("%-40s impl: %-50s model: %s%s" % (op[:40], a[:50], b[:50], ("  #F:" + ",".join(c.flags[i])) if i < len(c.flags) and c.flags[i] else ""))
+    return 1 if (c.mismatch or any(c.flags)) else 0
